@@ -407,7 +407,8 @@ def _explore(out, tier, seed, facts, replay, tmp):
 
             # ---- spread-skill -----------------------------------------------------------------------------------
             se = sorted(rng.sample([0, 0.5, 1, 2, 3, 4, 6, 8, 12], rng.randint(3, 6)))
-            args = ["-m", "spreadskill", "-r", ",".join(str(e) for e in se), "-q", "0.1,0.9"]
+            # the spread is (highest requested quantile) - (lowest requested quantile), in whatever order -q lists them
+            args = ["-m", "spreadskill", "-r", ",".join(str(e) for e in se), "-q", rng.choice(["0.1,0.9", "0.9,0.1", "0.1,0.9,0.5", "0.5,0.9,0.1", "0.9,0.5,0.1"])]
             fig, rep, _ = run(args)
             if fig is not None:
                 ls = lines_of(fig.axes[0], names)
@@ -418,6 +419,39 @@ def _explore(out, tier, seed, facts, replay, tmp):
                         list(l.get_xdata()) + list(l.get_ydata()), rep)
                 if len(ls) != F:
                     out.violation("spreadskill:series", "-m spreadskill: %d lines for %d inputs" % (len(ls), F), rep)
+
+            # ---- economic value: at every cost-loss ratio of the grid each case either acts (p >= ratio) or not -------------
+            t_e = rng.choice(PS)
+            bt_e = rng.choice(["above", "above=", "below", "below="])
+            args = ["-m", "economicvalue", "-r", str(t_e), "-b", bt_e]
+            fig, rep, _ = run(args)
+            if fig is not None:
+                ls = lines_of(fig.axes[0], names)
+                if len(ls) != F:
+                    out.violation("economicvalue:series", "-m economicvalue: %d lines for %d inputs" % (len(ls), F), rep)
+                grid = [(j / 20.0) ** 3 for j in range(21)]
+                for k, l in enumerate(ls[:F]):
+                    o, cdf = data.get_scores([OBS, verif.field.Threshold(t_e)], k, NO)
+                    if len(o) == 0 or np.any(np.isnan(o)):
+                        continue
+                    ev = {"above": o > t_e, "above=": o >= t_e, "below": o < t_e, "below=": o <= t_e}[bt_e]
+                    pr = 1 - cdf if bt_e.startswith("above") else cdf
+                    xs_ = [float(x) for x in l.get_xdata()]
+                    if len(xs_) != 21 or any(abs(a_ - b_) > 1e-12 for a_, b_ in zip(xs_, grid)):
+                        out.violation("economicvalue:grid", "verif %s, input %d: the cost-loss ratios on the x-axis are %r, expected (j/20)^3 for j = 0..20" % (" ".join(args), k, xs_), rep)
+                        continue
+                    add("economicvalue", "verif %s, input %d" % (" ".join(args), k),
+                        "map (fun a => econ_value X a %s %s) %s" % (bools(ev), fvec(pr), fvec(xs_)), list(l.get_ydata()), rep)
+                    # independent reading of the definition: mean expense of the forecast user against climatology and a perfect forecast
+                    clim = float(np.mean(ev))
+                    for a_, y_ in zip(xs_, l.get_ydata()):
+                        exp_f = float(np.mean(np.where(pr >= a_, a_, np.where(ev, 1.0, 0.0))))
+                        exp_c, exp_p = min(clim, a_), clim * a_
+                        want = 0.0 if exp_c == exp_p else (exp_c - exp_f) / (exp_c - exp_p)
+                        if abs(want - float(y_)) > 1e-9:
+                            out.violation("economicvalue:definition", "verif %s, input %d: at cost-loss ratio %r the curve shows %r; mean expenses (forecast %r, climatology %r, perfect %r) give %r"
+                                          % (" ".join(args), k, a_, float(y_), exp_f, exp_c, exp_p, want), rep)
+                            break
 
             # ---- freq: share of forecasts (per input) and of observations inside each interval ------------------------
             f_edges = sorted(rng.sample([0, 1, 2, 3, 4, 5, 6, 7, 8], rng.randint(3, 6)))
